@@ -14,7 +14,13 @@
     Hence the ledger of external references is UNCHANGED:
     [∀ L, Counts r L → Counts r' L] — the caller does not hold the returned
     roots (their counter is their in-degree: 0 for a root that nothing else
-    points to, until the caller's [incref]). *)
+    points to, until the caller's [incref]).
+    Node limit ([max_nodes]): the total statements ([load_pickle_counts_from],
+    [load_pickle_false_total]) hold for ANY limit of the receiver: a load
+    stopped by the [RuntimeError] of a full table ([Err ERuntime]) leaves a
+    consistent manager with the same ledger.  The round-trip theorems of
+    section 8 conclude success and carry [max_nodes r = None], as in
+    [Proofs/Pickle.v] (a fresh receiver [init] is unbounded). *)
 From DD Require Export Pickle Total.
 
 (** ** 1. [add_var] without [Inv] (in the middle of the variable loop of a
@@ -174,7 +180,7 @@ Proof.
   - by apply (Hs s r s').
   - set (s0 := s <| last_len := None |>) in *.
     assert (HI0 : Inv s0) by (by apply Inv_set_ll).
-    destruct (Hs s0 r s1 HI0 eq_refl H) as (HI1&He&(_&E2&E3&E4)&HC).
+    destruct (Hs s0 r s1 HI0 eq_refl H) as (HI1&He&(_&E2&E3&E4&E5)&HC).
     split; [by apply Inv_set_ll|]. split; [exact He|]. split; [by split_and!|].
     intros L HL. apply (Counts_same s1); [done..|]. apply HC. by apply (Counts_same s).
 Qed.
@@ -321,15 +327,15 @@ Qed.
 Theorem pickle_roundtrip_into_counts s roots order vorder pf sd r :
   Inv s → Forall (valid s) (roots_values roots) →
   dump_pickle roots order vorder s = (Ok pf, sd) →
-  Inv r → vars r = vars s → lvl2var r = lvl2var s →
+  Inv r → max_nodes r = None → vars r = vars s → lvl2var r = lvl2var s →
   sd = s ∧
   ∃ roots' r', load_pickle pf true r = (Ok roots', r') ∧
     Inv r' ∧ extends r r' ∧ frame r r' ∧ last_len r' = last_len r ∧
     roots_rel (same_fun s r') roots roots' ∧
     ∀ L, Counts r L → Counts r' L.
 Proof.
-  intros HI Hr Hd HIr Ev El.
-  destruct (pickle_roundtrip_into s roots order vorder pf sd r HI Hr Hd HIr Ev El)
+  intros HI Hr Hd HIr Hmx Ev El.
+  destruct (pickle_roundtrip_into s roots order vorder pf sd r HI Hr Hd HIr Hmx Ev El)
     as (->&roots'&r'&E&HI'&He&Hf&Hll&Hrel).
   split; [done|]. exists roots', r'. split_and!; try done.
   destruct (dump_pickle_inv s roots order vorder pf s HI Hr Hd) as (_&_&Hvl&_).
@@ -344,18 +350,18 @@ Proof.
 Qed.
 
 Theorem pickle_roundtrip_same_counts s roots order vorder pf sd :
-  Inv s → Forall (valid s) (roots_values roots) →
+  Inv s → max_nodes s = None → Forall (valid s) (roots_values roots) →
   dump_pickle roots order vorder s = (Ok pf, sd) →
   sd = s ∧
   ∃ s', load_pickle pf true s = (Ok roots, s') ∧
     Inv s' ∧ extends s s' ∧ frame s s' ∧ last_len s' = last_len s ∧
     ∀ L, Counts s L → Counts s' L.
 Proof.
-  intros HI Hr Hd.
-  destruct (pickle_roundtrip_same s roots order vorder pf sd HI Hr Hd)
+  intros HI Hmx Hr Hd.
+  destruct (pickle_roundtrip_same s roots order vorder pf sd HI Hmx Hr Hd)
     as (->&s'&E&HI'&He&Hf&Hll).
   split; [done|]. exists s'. split_and!; try done.
-  destruct (pickle_roundtrip_into_counts s roots order vorder pf s s HI Hr Hd HI eq_refl eq_refl)
+  destruct (pickle_roundtrip_into_counts s roots order vorder pf s s HI Hr Hd HI Hmx eq_refl eq_refl)
     as (_&roots2&s2&E2&_&_&_&_&_&HC).
   rewrite E in E2. by injection E2 as _ <-.
 Qed.
@@ -363,7 +369,7 @@ Qed.
 Theorem pickle_roundtrip_any_counts s roots order vorder pf sd r :
   Inv s → Forall (valid s) (roots_values roots) →
   dump_pickle roots order vorder s = (Ok pf, sd) →
-  Inv r →
+  Inv r → max_nodes r = None →
   sd = s ∧
   ∃ roots' r', load_pickle pf false r = (Ok roots', r') ∧
     Inv r' ∧ frame r r' ∧ last_len r' = last_len r ∧
@@ -375,8 +381,8 @@ Theorem pickle_roundtrip_any_counts s roots order vorder pf sd r :
      ∀ k v, vorder !! k = Some v → vars r' !! v = Some (nvars r + k)) ∧
     ∀ L, Counts r L → Counts r' L.
 Proof.
-  intros HI Hr Hd HIr.
-  destruct (pickle_roundtrip_any s roots order vorder pf sd r HI Hr Hd HIr)
+  intros HI Hr Hd HIr Hmx.
+  destruct (pickle_roundtrip_any s roots order vorder pf sd r HI Hr Hd HIr Hmx)
     as (->&roots'&r'&E&H1&H2&H3&H4&H5&H6&H7&H8&H9).
   split; [done|]. exists roots', r'. split_and!; try done.
   by destruct (load_pickle_false_total pf r _ r' HIr E) as (_&_&HC&_).
@@ -385,7 +391,7 @@ Qed.
 Theorem pickle_roundtrip_other_order_counts s roots order vorder pf sd r :
   Inv s → Forall (valid s) (roots_values roots) →
   dump_pickle roots order vorder s = (Ok pf, sd) →
-  Inv r → dom (vars s) ⊆ dom (vars r) →
+  Inv r → max_nodes r = None → dom (vars s) ⊆ dom (vars r) →
   sd = s ∧
   ∃ roots' r', load_pickle pf false r = (Ok roots', r') ∧
     Inv r' ∧ extends r r' ∧ frame r r' ∧
@@ -393,8 +399,8 @@ Theorem pickle_roundtrip_other_order_counts s roots order vorder pf sd r :
     roots_rel (same_fun s r') roots roots' ∧
     ∀ L, Counts r L → Counts r' L.
 Proof.
-  intros HI Hr Hd HIr Hdom.
-  destruct (pickle_roundtrip_other_order s roots order vorder pf sd r HI Hr Hd HIr Hdom)
+  intros HI Hr Hd HIr Hmx Hdom.
+  destruct (pickle_roundtrip_other_order s roots order vorder pf sd r HI Hr Hd HIr Hmx Hdom)
     as (->&roots'&r'&E&H1&H2&H3&H4&H5&H6&H7).
   split; [done|]. exists roots', r'. split_and!; try done.
   by destruct (load_pickle_false_total pf r _ r' HIr E) as (_&_&HC&_).
